@@ -194,3 +194,50 @@ MUTANTS['C20'] = [
   ('keyed-iteration-refused', [(C, "        if with_key:\n            it = self.input_dataset.__iter__(with_key=True)\n        else:\n            it = iter(self.input_dataset)", "        if with_key:\n            raise _ItemsNotDefined(self.__class__.__name__)\n        it = iter(self.input_dataset)")]),
   ('getitem-counts-twice', [(C, "        # Avoid context manager: https://stackoverflow.com/a/26156031/5766934\n        self.hit_count[0] += 1", "        # Avoid context manager: https://stackoverflow.com/a/26156031/5766934\n        self.hit_count[0] += 1 + (item == 0)")]),
 ]
+
+MUTANTS['C04'] = [
+  ('lpm-takes-newest-future', [(P, "                if q.qsize() >= buffer_size:\n                    yield result(q.get())", "                if q.qsize() >= buffer_size:\n                    _all = [q.get() for _ in range(q.qsize())]\n                    yield result(_all.pop())\n                    for _f in _all:\n                        q.put(_f)")]),
+  ('lpm-yields-completed-first', [(P, "            while not q.empty():\n                yield result(q.get())", "            _rest = [q.get() for _ in range(q.qsize())]\n            _rest.sort(key=lambda f: not f.done())\n            for _f in _rest:\n                yield result(_f)")]),
+  ('lpm-drops-last', [(P, "            while not q.empty():\n                yield result(q.get())", "            while q.qsize() > 1:\n                yield result(q.get())")]),
+  ('prefetch-iter-range-minus-one', [(C, "            iterable = range(len(self.input_dataset))", "            iterable = range(len(self.input_dataset) - (1 if len(self.input_dataset) > 2 else 0))")]),
+  ('stp-sentinel-when-queue-full-skipped', [(P, "            if not shutdown:\n                # This is not necessary", "            if not shutdown and not data_queue.full():\n                # This is not necessary")]),
+  ('stp-worker-skips-after-racy-check', [(P, "                data_queue.put(item)\n                if shutdown:\n                    return", "                if data_queue.qsize() == buffer_size and buffer_size > 1:\n                    continue\n                data_queue.put(item)\n                if shutdown:\n                    return")]),
+  ('parmap-key-iteration-unmapped', [(C, "        key, ex = key_ex\n        ex = func(ex)\n        return key, ex", "        key, ex = key_ex\n        return key, func(ex) if key != 'k1' else ex")]),
+  ('prefetch-len-with-workers', [(C, "        else:\n            return len(self.input_dataset)\n\n    def __iter__(self, with_key=False):\n        if self.num_workers == 1", "        else:\n            return len(self.input_dataset) - (self.num_workers > 1)\n\n    def __iter__(self, with_key=False):\n        if self.num_workers == 1")]),
+]
+
+MUTANTS['C05'] = [
+  ('stp-sentinel-guard-removed', [(P, "            if not shutdown:\n                # This is not necessary", "            if True:\n                # This is not necessary")]),
+  ('stp-drain-loop-removed', [(P, "            while True:\n                data_queue.get_nowait()", "            pass")]),
+  ('stp-shutdown-flag-after-drain', [(P, "        shutdown = True\n        try:\n            # Handle a break of the iteration.", "        try:\n            # Handle a break of the iteration."), (P, "        except queue.Empty:\n            pass\n        thread.join()", "        except queue.Empty:\n            pass\n        shutdown = True\n        thread.join()")]),
+  ('stp-join-removed', [(P, "        except queue.Empty:\n            pass\n        thread.join()", "        except queue.Empty:\n            pass")]),
+  ('lpm-terminate-removed', [(P, "            terminate(executor, q)\n            raise", "            raise")]),
+  ('lpm-except-generatorexit-narrowed', [(P, "        except GeneratorExit:\n            # A GeneratorExit will not stop", "        except KeyboardInterrupt:\n            # A GeneratorExit will not stop")]),
+  ('lpm-cancel-only-first', [(P, "            try:\n                while True:\n                    q.get(block=False).cancel()\n            except queue.Empty:\n                pass\n\n    elif backend is False:", "            try:\n                q.get(block=False).cancel()\n            except queue.Empty:\n                pass\n\n    elif backend is False:")]),
+  ('mp-pool-not-cleared', [(P, "            ex.join()\n            ex.clear()\n", "")]),
+]
+
+MUTANTS['C06'] = [
+  ('stp-exc-info-reraise-removed', [(P, "    if exc_info is not None:\n        raise exc_info[1].with_traceback(exc_info[2])", "    if exc_info is not None and False:\n        raise exc_info[1].with_traceback(exc_info[2])")]),
+  ('stp-catches-only-exception', [(P, "        except BaseException:\n            # Save the exception and reraise it in the main thread", "        except Exception:\n            # Save the exception and reraise it in the main thread")]),
+  ('catcher-catches-exception', [(C, "                    try:\n                        return input_dataset[index]\n                    except catch_filter_exception:", "                    try:\n                        return input_dataset[index]\n                    except Exception:")]),
+  ('marker-compared-by-equality-with-none', [(C, "                if isinstance(data, _FilteredExample):", "                if isinstance(data, _FilteredExample) or data == ('f', 1):")]),
+  ('single-thread-path-not-wrapped-in-catch', [(C, "            input_dataset = CatchExceptionDataset(\n                self.input_dataset,\n                exceptions=exceptions,\n            )", "            input_dataset = self.input_dataset")]),
+  ('marker-by-identity-again', [(C, "                if isinstance(data, _FilteredExample):", "                if data is unique_object:")]),
+  ('lpm-result-swallows-valueerror', [(P, "        def result(job: concurrent.futures.Future):\n            return job.result()", "        def result(job: concurrent.futures.Future):\n            try:\n                return job.result()\n            except ValueError:\n                return None")]),
+  ('stp-error-drops-queued-items', [(P, "            nonlocal exc_info\n            # https://stackoverflow.com/a/1854263/5766934\n            exc_info = sys.exc_info()", "            nonlocal exc_info\n            # https://stackoverflow.com/a/1854263/5766934\n            exc_info = sys.exc_info()\n            try:\n                data_queue.get_nowait()\n            except queue.Empty:\n                pass")]),
+]
+
+MUTANTS['C07'] = [
+  ('stp-queue-unbounded', [(P, "    data_queue = queue.Queue(buffer_size)", "    data_queue = queue.Queue()")]),
+  ('stp-queue-plus-two', [(P, "    data_queue = queue.Queue(buffer_size)", "    data_queue = queue.Queue(buffer_size + 2)")]),
+  ('lpm-buffer-gt', [(P, "                if q.qsize() >= buffer_size:", "                if q.qsize() > buffer_size:")]),
+  ('lpm-submit-before-size-check', [(P, "                if q.qsize() >= buffer_size:\n                    yield result(q.get())\n                q.put(submit(executor, function, ele, *args, **kwargs))", "                q.put(submit(executor, function, ele, *args, **kwargs))\n                if q.qsize() > buffer_size:\n                    yield result(q.get())")]),
+  ('prefetch-passes-len-as-buffer', [(C, "            yield from lazy_parallel_map(\n                function,\n                iterable,\n                buffer_size=self.buffer_size,", "            yield from lazy_parallel_map(\n                function,\n                iterable,\n                buffer_size=max(len(self), self.buffer_size),")]),
+  ('parmap-ignores-buffer-size', [(C, "            return lazy_parallel_map(\n                self.map_function,\n                self.input_dataset,\n                buffer_size=self.buffer_size,", "            return lazy_parallel_map(\n                self.map_function,\n                self.input_dataset,\n                buffer_size=self.buffer_size * 2,")]),
+]
+
+# C07: mutants that make the read-ahead *smaller* (Queue(buffer_size - 1),
+# q.qsize() >= buffer_size - 1) do not violate the statement; the check ends
+# INCONCLUSIVE (exit 2, "the workload did not reach the bound"), which is how an
+# off-by-one in the harmless direction shows up.
